@@ -25,7 +25,7 @@ ASSUMPTIONS = ["six 1.17 shim", "actor assumption", "all optional modules are pr
 BUDGET = {"quick": (800, 150), "thorough": (20000, 2400)}
 FAULTS = ["srv_reply_reordered", "srv_dup_reply", "srv_unknown_id_reply", "srv_error_reply", "srv_nonreply_live_id"]
 PROBES = ["out_of_order_replies", "error_callback", "success_callback", "internal_key_fetch", "internal_group_info",
-          "dup_ignored", "unknown_ignored"]
+          "dup_ignored", "unknown_ignored", "retry_from_error_callback"]
 SHRINK = ["rounds"]
 PA, PP = "4915130000001", "4915130000002"
 JA, JP = PA + "@s.whatsapp.net", PP + "@s.whatsapp.net"
@@ -34,7 +34,7 @@ GJ2 = "4915130000001-1500000001@g.us"
 APP_KINDS = ["ping", "lastseen", "picture", "privacy", "statuses", "setstatus", "grouplist", "groupinfo",
              "create", "leave", "subject", "addp", "removep", "promote", "demote", "sync"]
 MODES = ["result", "result", "result", "error", "error", "dup_result", "dup_error", "unknown_id", "nonreply_then_result",
-         "error_then_result", "result_then_error"]
+         "error_then_result", "result_then_error", "error_retry"]
 _S = {}
 
 
@@ -257,8 +257,18 @@ class W(convo.World):
         def ok(e, r):
             w.calls.append((rid, "ok", r is req, "app"))
 
+        def ok2(e, r):
+            w.calls.append((rid, "ok", r is req, "app-retry"))
+
+        def err2(e, r):
+            w.calls.append((rid, "err", r is req, "app-retry"))
+
         def err(e, r):
             w.calls.append((rid, "err", r is req, "app"))
+            if rec["mode"] == "error_retry" and not rec.get("retried"):
+                # the application tries the same request once more from inside its error callback
+                rec["retried"] = True
+                w.a.app._sendIq(req, ok2, err2)
 
         self.a.app._sendIq(req, ok, err)
 
@@ -366,6 +376,19 @@ class W(convo.World):
             self.reply(reqnode, kind, second)
             self.on_fault("srv_dup_reply", rec["id"], {})
             rec["delivered"] = [first, second]
+        elif mode == "error_retry":
+            n0 = len(self.held)
+            self.capture = True
+            self.reply(reqnode, kind, "error")
+            self.kick_server()
+            self.wait_quiescent(60)
+            self.capture = False
+            rec["delivered"] = ["error"]
+            again = [n for n in self.held[n0:] if n["id"] == reqnode["id"]]
+            rec["retry_seen"] = len(again)
+            if again:
+                self.probe("retry_from_error_callback")
+                self.reply(again[0], kind, "result")
         elif mode.startswith("dup_"):
             t = mode[4:]
             self.reply(reqnode, kind, t)
@@ -413,6 +436,17 @@ class W(convo.World):
                     else:
                         self.violate("wrong-callback/%s" % label, "request %s id=%s: %s callback ran for a %s reply"
                                      % (kind, rid, got[0][0], first))
+                elif rec["mode"] == "error_retry" and src == "app":
+                    again = [(c[1], c[2]) for c in self.calls if c[0] == rid and c[3] == "app-retry"]
+                    if rec.get("retry_seen") != 1:
+                        self.violate("retry/request-not-sent/%s" % kind, "request %s id=%s: the application re-sent the request "
+                                     "from its error callback, the server saw %s copies of it" % (kind, rid, rec.get("retry_seen")))
+                    elif [g[0] for g in again] != ["ok"]:
+                        self.violate("retry/callback-%s/%s" % ("not-invoked" if not again else "wrong", kind),
+                                     "request %s id=%s re-sent from its error callback and answered with a result: callbacks of the "
+                                     "second registration ran %s (expected the result callback once)" % (kind, rid, again))
+                    else:
+                        self.probe("error_callback")
                 elif not want:
                     self.probe("dup_ignored")
                 elif not got[0][1]:
